@@ -191,6 +191,9 @@ mod proofs {
 			// partial blocks: any sub-rectangle of the 256x256 block is accepted and placed at (x*256, y*256)
 			assert!(wf(&bd.global_bbox) && bd.global_bbox.level == data[0] && bd.global_bbox.x_min == data[9] as u32 + be32(&data, 1) * 256 && bd.global_bbox.y_max == data[12] as u32 + be32(&data, 5) * 256);
 			assert!(bd.index_range.offset == bd.tiles_range.offset + bd.tiles_range.length);
+			// the invariant the reader relies on (Verus unit versatiles_reader, BlockDefinition::ok): same shape, same level
+			assert!(bd.tiles_coverage.x_max - bd.tiles_coverage.x_min == bd.global_bbox.x_max - bd.global_bbox.x_min && bd.tiles_coverage.y_max - bd.tiles_coverage.y_min == bd.global_bbox.y_max - bd.global_bbox.y_min);
+			assert!(bd.global_bbox.level == bd.offset.z && bd.tiles_coverage.x_min <= bd.tiles_coverage.x_max && bd.tiles_coverage.y_min <= bd.tiles_coverage.y_max && bd.tiles_coverage.x_max <= bd.tiles_coverage.max && bd.tiles_coverage.y_max <= bd.tiles_coverage.max);
 		}
 	}
 	// harness: kind=canary expect=fail tier=quick props=C01,C16,C19 timeout=1200
